@@ -135,7 +135,9 @@ func (s *store) Delete(key string) (err error) {
 func (s *store) Iterate(prefix string, iterFunc storage.StateIterFunc) (err error) {
 	iter := s.db.Search(driver.Query{Prefix: driver.Key{Data: []byte(prefix)}, MatchPrefix: true})
 	defer func() {
-		err = iter.Close()
+		if cerr := iter.Close(); err == nil {
+			err = cerr
+		}
 	}()
 	for ; iter.Valid(); iter.Next() {
 		stop, err := iterFunc(iter.Key(), iter.Value())
